@@ -48,7 +48,7 @@ Proof. exact untouched. Qed.
 Print Assumptions c01_outside_zero.
 
 Example c01_example :
-  let fr := {| T := 2; F := 5; df := 2; dt := 1; fmin := 100; data := mk 2 5 (fun _ _ => 0) |} in
+  let fr := {| T := 2; F := 5; df := 2; dt := 1; fmin := 100; t0 := 0; data := mk 2 5 (fun _ _ => 0) |} in
   let box := fun f fc => if Qle_bool (Qabs.Qabs (f - fc)) 1 then 1 else 0 in
   match add_signal fr (CFun (fun t => 102 + 2 * t)) (CScal 3) box None (Some (102, 108)) no_opts with
   | Ok (_, r) => map (map Qred) r = [[0;3;0;0;0];[0;0;3;0;0]]
